@@ -320,8 +320,12 @@ Definition g_observe_final (i : ginput) : val :=
 
 (* monitors on the implementation's own decisions *)
 Record gobs := mkGO { go_in : ginput; go_decisions : list decision }.
+(* the documented planning state, by hand: EDF and LSF restart from the empty cluster when preemptive (deepcopy),
+   otherwise -- and FIFO always -- the policy plans on the live occupancy (copy) *)
+Definition doc_reset (code : Z) (preemptive : bool) : bool := if code =? 1 then false else preemptive.
+Definition doc_policy_shell (code : Z) : policy := mkPolicy (fun _ _ => []) false (fun _ _ _ _ => false) (doc_reset code).
 Definition go_virtual (o : gobs) : cluster SL :=
-  virtual SL (policy_of_code (gi_policy (go_in o))) (gi_preemptive (go_in o)) (gi_cluster (go_in o)).
+  virtual SL (doc_policy_shell (gi_policy (go_in o))) (gi_preemptive (go_in o)) (gi_cluster (go_in o)).
 Definition mon_contract (o : gobs) : bool :=
   contract_check SL (gi_offered (go_in o)) (go_virtual o) (gi_now (go_in o)) (go_decisions o).
 Definition mon_c12 (o : gobs) : bool :=
